@@ -2,6 +2,8 @@ package value
 
 import (
 	"sync"
+
+	"github.com/mithrandie/csvq/lib/verifhook"
 )
 
 var stringPool = &sync.Pool{
@@ -46,6 +48,10 @@ func getDatetime() *Datetime {
 
 func Discard(p Primary) {
 	if p != nil {
+		if verifhook.Enabled && isPooled(p) && verifhook.Discard(p) {
+			poison(p)
+			return
+		}
 		switch p.(type) {
 		case *String:
 			stringPool.Put(p)
@@ -57,4 +63,12 @@ func Discard(p Primary) {
 			datetimePool.Put(p)
 		}
 	}
+}
+
+func isPooled(p Primary) bool {
+	switch p.(type) {
+	case *String, *Integer, *Float, *Datetime:
+		return true
+	}
+	return false
 }
